@@ -13,7 +13,7 @@ def run(rep, tier, seed, replay):
                        "Starts with the two historical witnesses. non-trivial = at least one stream failure or burst; distinct = distinct history")
     rep.assumptions += ["the server adds the subscribed names and then removes the unsubscribed ones of a request (with the repaired client no request names a service in both lists)",
                         "the sender loop may send more, smaller requests than the model's one flush per pause: views are compared at pauses, not request counts",
-                        "the gRPC transport and Run's jittered pause are not exercised (the scripted factory stands for StreamSvcConfigs/StreamSvcEndpoints)"]
+                        "the gRPC transport is not exercised: a scripted factory stands for StreamSvcConfigs/StreamSvcEndpoints in the history runs, a scripted api.DiscoveryServiceClient stub in the end-to-end runs (which go through Run's real retry pause)"]
     pr = vlib.prove(rep, PROP)
     vlib.prepare_runners()
     rc = [json.load(open(replay))["case"]["line"]] if replay else None
@@ -33,5 +33,28 @@ def run(rep, tier, seed, replay):
             what = "the server's view %s differs from the dependency set %s" % (impl[i][:200], model[i][:200])
         found = True
         rep.violation({"kind": "history", "oracle": what, "case": {"line": cases[i], "format": "s<n> subscribe, u<n> unsubscribe, up, down, f = pause"}, "impl": impl[i], "model": model[i], "failing_cases": len(mm)})
+    # end to end: dependency responses through the real wrapped hook, both subscription clients and their streams over a scripted stub
+    res = differential(rep, PROP, "c16e2e", seed + 3, 40 if tier == "quick" else 2000, tier, model_modes=[])
+    cases2, impl2 = res["cases"], res["impl"]
+    bad = []
+    for i, c in enumerate(cases2):
+        want = set()
+        for up in c.split(" ; "):
+            up = up.strip()
+            if not up or up.startswith("!"):
+                continue
+            xs = up.split(",")
+            want |= {x[1:] for x in xs if x.startswith("+")}
+            want -= {x[1:] for x in xs if x.startswith("-")}
+        exp = "cfg=%s ep=%s" % (",".join(sorted(want)), ",".join(sorted(want)))
+        if impl2[i] != exp:
+            bad.append((i, "both servers must have been told to watch exactly the dependencies '%s'; observed '%s'" % (exp, impl2[i][:300])))
+    add_corr(rep, "Dependency responses through the real discovery client (wrapped hook, config and endpoint subscription clients, stream failures): the servers' views vs the dependency set",
+             res, [b[0] for b in bad], len(set(cases2)))
+    if bad and not found:
+        found = True
+        i, what = min(bad, key=lambda x: len(cases2[x[0]]))
+        rep.violation({"kind": "history", "mode": "c16e2e", "oracle": what, "case": {"line": cases2[i], "format": "dependency responses separated by ' ; ': +name added, -name removed; !cfg / !ep = that stream fails"},
+                       "impl": impl2[i], "failing_cases": len(bad)})
     if not pr["ok"] and not found:
         rep.violation({"kind": "broken-tie", "theorem": pr.get("broken"), "detail": pr.get("tail"), "searched": "views agree with the model on every history"}, found_input=False)
